@@ -794,6 +794,56 @@ pub fn run(cfg: &RunCfg) -> CheckReport {
     if rep.has_violation() {
         return rep;
     }
+    // a diff started from a destructor while its thread exits (thread-locals of the library, if it
+    // has any, are already gone): same protocol
+    {
+        const INPUTS: [(&[u8], &[u8]); 4] = [(&[0, 1, 2, 3], &[0, 9, 2, 3, 4]), (&[], &[1]), (&[0, 1, 0, 1, 2], &[1, 0, 2, 2]), (&[5, 5], &[5, 5])];
+        let ex = explore(cfg, INPUTS.len() * 3, |shard, acc| {
+            let (old, new) = INPUTS[shard / 3];
+            let alg = ALGS[shard % 3];
+            let r = at_thread_exit(
+                move || {
+                    let _ = similar::capture_diff_slices(alg, old, new);
+                    let _ = similar::TextDiff::configure().algorithm(alg).diff_chars("abc", "acd").ops().len();
+                },
+                move || {
+                    for stack in 0..STACKS.len() {
+                        let (calls, r) = run_stack(alg, stack, old, new, None)?;
+                        if let Err(k) = r {
+                            return Err(format!("{}: diff returned Err({}) although no hook call failed", STACKS[stack], k));
+                        }
+                        let finishes = calls.iter().filter(|c| **c == Call::Fin).count();
+                        let want = if stack == 5 || stack == 7 { 0 } else { 1 };
+                        if finishes != want || (want == 1 && calls.last() != Some(&Call::Fin)) {
+                            return Err(format!(
+                                "{}: finish reached the hook {} times, expected {} [calls: {}]",
+                                STACKS[stack], finishes, want, calls_to_string(&calls)
+                            ));
+                        }
+                        for k in 0..calls.len() {
+                            let (c2, r2) = run_stack(alg, stack, old, new, Some(k))?;
+                            if r2 != Err(k) || c2.len() != k + 1 {
+                                return Err(format!("{}: hook failed at call {} but the diff returned {:?} after {} calls", STACKS[stack], k, r2, c2.len()));
+                            }
+                        }
+                    }
+                    Ok(())
+                },
+            );
+            match r {
+                Ok(()) => acc.ok(true, 1, shard as u64),
+                Err(e) => acc.violation(|| {
+                    let mut c = seq_case(alg, old, new);
+                    c["at_thread_exit"] = json!(true);
+                    (c, format!("diff started from a thread-local destructor at thread exit: {}", e))
+                }),
+            }
+        });
+        rep.part("thread-exit", json!({"inputs": INPUTS.len(), "note": "the whole protocol (12 stacks, every failing call index) run from the Drop of a thread-local value while its thread exits, after the same thread used the library"}), ex);
+        if rep.has_violation() {
+            return rep;
+        }
+    }
     // enumerated large inputs: success protocol and six failing call positions each
     super::large::run_part(cfg, &mut rep, &ALGS, &|a| if a == Algorithm::Lcs { 300 } else { usize::MAX }, check_large);
     if rep.has_violation() {
@@ -826,6 +876,17 @@ pub fn replay(case: &Value) -> Result<String, String> {
     let alg = parse_alg(case)?;
     let old = parse_seq(case, "old")?;
     let new = parse_seq(case, "new")?;
+    if case.get("at_thread_exit").is_some() {
+        let (o2, n2) = (old.clone(), new.clone());
+        return at_thread_exit(
+            move || {
+                let _ = similar::capture_diff_slices(alg, &o2, &n2);
+                let _ = similar::TextDiff::configure().algorithm(alg).diff_chars("abc", "acd").ops().len();
+            },
+            move || check_input(alg, &old, &new).map(|_| ()),
+        )
+        .map(|_| "holds".to_string());
+    }
     if let Some(d) = case.get("reuse_depth").and_then(|x| x.as_u64()) {
         return check_reuse(alg, d as usize, &old, &new).map(|o| format!("holds; {} runs, fingerprint {:x}", o.runs, o.fp));
     }
